@@ -437,9 +437,14 @@ def obligations(tier):
         hard = rule in (UPDATE, CHANGE)
         sels = SELS if (hard or not quick) else ["all", "late"]
         for sel in sels:
-            family("rule", rule, sel, K, 4, 1 if quick else 2, 1, hard)
+            # quick: the three trivial rules get one step less, which pays for unstamped/change below
+            family("rule", rule, sel, K if (hard or not quick) else K - 1, 4, 1 if quick else 2, 1, hard)
             if hard and not quick:       # histories that also write through Share.change (no stamp)
                 family("unstamped", rule, sel, 5, 5, 1, 1, True)
+            if rule == CHANGE and quick and sel in ("all", "two"):
+                # unstamped writes to a logged field, incl. with the log's stamp ahead of the share's stamp
+                # (stamped write, advance, RUN, unstamped write)
+                family("unstamped", rule, sel, 4, 5, 1, 1, True)
             if rule == CHANGE and not quick:   # three distinct values per field (a -> b -> c, a -> b -> a)
                 family("values3", rule, sel, 4, 4, 1, 2, False)
     for rule in (ONCE, ALWAYS, NEVER, UPDATE, CHANGE):
